@@ -35,6 +35,10 @@ pub struct TaskCtl {
     /// generation of the waker handed to the latest poll
     pub cur: AtomicU32,
     pub stale_wakes: AtomicU64,
+    /// park epoch: odd while the task is parked. A woken task bumps it (and stores RUNNING) *before* it
+    /// clears its token, so an observer that reads the token first and the epoch / state afterwards never
+    /// mistakes a task that is in the middle of waking up for one that is parked without a wake-up.
+    pub epoch: AtomicU64,
     pub token: AtomicBool,
     pub state: AtomicU8,
     pub thread: Mutex<Option<Thread>>,
@@ -60,6 +64,7 @@ impl Run {
                 slots: [0u32, 1, 2, 3].map(|j| GenSlot { j, ctl: AtomicPtr::new(std::ptr::null_mut()) }),
                 cur: AtomicU32::new(0),
                 stale_wakes: AtomicU64::new(0),
+                epoch: AtomicU64::new(0),
                 token: AtomicBool::new(false),
                 state: AtomicU8::new(RUNNING),
                 thread: Mutex::new(None),
@@ -303,12 +308,18 @@ pub fn drive<F: Future>(run: &Arc<Run>, i: usize, fut: F, how: Drive, waiting_fo
         }
         // park until woken
         ctl.waiting_for.store(waiting_for, Ordering::Relaxed);
+        ctl.epoch.fetch_add(1, Ordering::AcqRel);
         ctl.state.store(PARKED, Ordering::Release);
         loop {
-            if ctl.token.swap(false, Ordering::Acquire) {
+            if ctl.token.load(Ordering::Acquire) {
+                // order matters for observers (see `epoch`): leave the parked state first, clear the token last
+                ctl.epoch.fetch_add(1, Ordering::AcqRel);
+                ctl.state.store(RUNNING, Ordering::SeqCst);
+                ctl.token.store(false, Ordering::SeqCst);
                 break;
             }
             if run.abort.load(Ordering::Relaxed) {
+                ctl.epoch.fetch_add(1, Ordering::AcqRel);
                 ctl.state.store(RUNNING, Ordering::Release);
                 return Outcome::Aborted;
             }
@@ -318,7 +329,6 @@ pub fn drive<F: Future>(run: &Arc<Run>, i: usize, fut: F, how: Drive, waiting_fo
                 std::thread::park_timeout(Duration::from_millis(20));
             }
         }
-        ctl.state.store(RUNNING, Ordering::Release);
         wakes_left = wakes_left.saturating_sub(1);
     }
 }
@@ -354,10 +364,12 @@ pub fn supervise(run: &Arc<Run>, wall_limit: Duration) -> Verdict {
         let mut done = 0;
         let mut parked_clear = 0;
         for t in &run.tasks {
-            match t.state.load(Ordering::Acquire) {
+            // token first, state second (see `TaskCtl::epoch`)
+            let clear = !t.token.load(Ordering::SeqCst);
+            match t.state.load(Ordering::SeqCst) {
                 DONE => done += 1,
                 PARKED => {
-                    if !t.token.load(Ordering::Acquire) {
+                    if clear {
                         parked_clear += 1;
                     }
                 }
